@@ -14,6 +14,49 @@ BOUNDARIES = ["XX", "----WebKitFormBoundaryAbC123", "---------------------------
 STR_ALPHA = ["a", "b", "&", "=", "+", " ", "%", "%41", "?", "#", "/", ";", "é", "ü€", "\U0001f600", "\udcff", "\x00", "\n", "~", ".", "..", "a b", "c&d=e", "'", '"']
 
 
+WIDE_PATHS = ["//static/app/index.html?v=1&lang=en", "//a/b?v=1", "///a/b?x=1", "//a", "//", "///", "/a//b?x=1", "/a/http://x/y?q=1", "/http://h/p", "/p;k=v?x=1",
+              "/p;k?x=1#f", "/a;x/b;y?z=1", "/p#f", "/p#f?x=1", "/p?a=1?b=2", "/p?a=1#f#g", "", "*", "/", "/a%2Fb/c?x=%2F", "/%2F%2Fa", "/é/ü?q=é", "/\udcff?x=\udcfe",
+              "/p?x", "/p?", "/p?a=1&&b=2", "/p?a=b=c", "/p?a=1;b=2", "/p?%zz=1", "/p?a+b=c+d", "/a/?x=1", "/?x=1", "?x=1", "/p?x=1&x=2", "/:80/x?y=1",
+              "//host:99/p?x=1", "//user@host/p?x=1", "/p/?#", "/p?=", "/p?&", "/a/./../b", "/a b/c?d e=f g", "/p?x=http://y/z?w=1"]
+SEGS = ["a", "static", "http:", "x;p", "%2F", "a%2Fb", "é", "\udcff", ":80", "host:99", "..", ".", "", "a b", "~", "%41", "u@h", "b"]
+
+
+def _unq(s):
+    import urllib.parse
+    return urllib.parse.unquote(s, errors="surrogateescape")
+
+
+def ref_split_target(path):
+    """independent reading of an origin-form request target: (path part, query text, fragment text); `*` has neither"""
+    if path == "*": path = ""
+    rest, _, frag = path.partition("#")
+    p, _, query = rest.partition("?")
+    return p, query, frag
+
+
+def ref_query(path):
+    import urllib.parse
+    return [list(x) for x in urllib.parse.parse_qsl(ref_split_target(path)[1], keep_blank_values=True, errors="surrogateescape")]
+
+
+def ref_components(path):
+    p = ref_split_target(path)[0]
+    segs = p.split("/")
+    if "/" in p and ";" in segs[-1]: segs[-1] = segs[-1].split(";", 1)[0]
+    return [_unq(x) for x in segs if x]
+
+
+def meaning(path):
+    """what a request target means: unquoted segments (empty ones kept; '' = '/'), the last segment's ;parameters, query pairs, fragment.
+    Empty parameter/query/fragment sections say nothing, like their absence."""
+    if path == "*": return [["*"], "", [], ""]
+    p, query, frag = ref_split_target(path)
+    if p == "": p = "/"
+    head, _, last = p.rpartition("/")
+    last, _, params = last.partition(";")
+    return [[_unq(x) for x in (head + "/" + last).split("/")], params, ref_query(path), _unq(frag)]
+
+
 def cps(s):
     b = b"".join(ord(c).to_bytes(3, "big") for c in s)
     return b.hex() if b else "-"
@@ -148,6 +191,20 @@ class Check(PropertyCheck):
             out.append([hx(k), hx(v)])
         return out
 
+    def _wide_path(self, rng, star=True):
+        """request targets of every URL-significant shape: leading // and ///, `://` inside, ;params, #fragment, a second ?, empty,
+        `*`, percent-encoded slashes, non-ASCII and surrogate-escaped bytes"""
+        if rng.chance(0.3):
+            p = rng.pick(WIDE_PATHS)
+            return p if (star or p != "*") else "/"
+        n = rng.randint(0, 4)
+        out = rng.pick(["/", "/", "//", "///"] + ([""] if n == 0 else [])) + "/".join(rng.pick(SEGS) for _ in range(n))
+        if n and rng.chance(0.2): out += rng.pick([";k=v", ";k", ";"])
+        if rng.chance(0.6): out += "?" + rng.pick(["v=1", "v=1&lang=en", "x", "", "a=1&&b=2", "a=b=c", "q=é", "u=http://h/p?w=1", "a+b=c%20d", "=", "x=1&x=2"])
+        if rng.chance(0.15): out += "?" + rng.pick(["b=2", ""])
+        if rng.chance(0.2): out += "#" + rng.pick(["f", "", "f?x=1", "a/b"])
+        return out
+
     def _pairs(self, rng):
         return [[self._sane(self._s(rng, STR_ALPHA, 0, 3)), self._sane(self._s(rng, STR_ALPHA, 0, 3))] for _ in range(rng.randint(0, 4))]
 
@@ -162,9 +219,15 @@ class Check(PropertyCheck):
         for v in [b"", b"v", b"l1\r\nl2", b"l1\nl2", b"l1\rl2", b"v\r\n", b"\r\nv", b"--XX", b"a--XXb", b"\x0b\x0c\x85"]:
             for k in [b"k", b"", b'k"q', b"a\r\nb", b"a.png"]:
                 yield {"k": "multipart", "ct": "multipart/form-data; boundary=XX", "parts": [[hx(k), hx(v)]], "body0": None}
+        for p0 in WIDE_PATHS:
+            yield {"k": "wb", "path0": p0}
+            if p0 != "*":
+                yield {"k": "query", "pairs": [["k", "v"], ["a b", "c&d"]], "path0": p0}
+                yield {"k": "path", "comps": ["x", "y z"], "path0": p0}
         while True:
             r = rng.random()
-            if r < 0.22: yield {"k": "cookie", "pairs": self._ck_pairs(rng)}
+            if r < 0.10: yield {"k": "wb", "path0": self._wide_path(rng)}
+            elif r < 0.22: yield {"k": "cookie", "pairs": self._ck_pairs(rng)}
             elif r < 0.32: yield {"k": "cookiehdr", "hdrs": [self._sane(self._s(rng, CK_ALPHA, 0, 8)) for _ in range(rng.randint(1, 2))]}
             elif r < 0.47: yield {"k": "setcookie", "cookies": [self._sc(rng) for _ in range(rng.randint(0, 2))]}
             elif r < 0.55: yield {"k": "setcookiehdr", "hdrs": [self._sane(self._s(rng, CK_ALPHA + ["=", ";", ",", "expires=", "; "], 0, 9)) for _ in range(rng.randint(1, 2))]}
@@ -175,9 +238,10 @@ class Check(PropertyCheck):
                 b = rng.pick(["XX", "a", "----B1"])
                 body = b"".join(rng.pick(MP_ALPHA + [b"--" + b.encode(), b"\r\n", b'Content-Disposition: form-data; name="k"', b"\r\n\r\n", b"--\r\n"]) for _ in range(rng.randint(0, 9)))
                 yield {"k": "mpbody", "ct": "multipart/form-data; boundary=" + b, "body_hex": hx(body)}
-            elif r < 0.86: yield {"k": "query", "pairs": self._pairs(rng), "path0": rng.pick(["/p", "/p?x=1", "/p;k?x=1&y#f", "/", "/a%20b?%zz"])}
+            elif r < 0.86: yield {"k": "query", "pairs": self._pairs(rng), "path0": self._wide_path(rng, star=False) if rng.chance(0.6) else rng.pick(["/p", "/p?x=1", "/p;k?x=1&y#f", "/", "/a%20b?%zz"])}
             elif r < 0.94: yield {"k": "form", "pairs": self._pairs(rng), "body0": rng.pick([None, "a=1", "a&b=2", ""]), "ct": rng.pick([None, "application/x-www-form-urlencoded", "text/plain"])}
-            else: yield {"k": "path", "comps": [self._sane(self._s(rng, STR_ALPHA, 0, 3)) for _ in range(rng.randint(0, 4))], "path0": rng.pick(["/p", "/p?x=1", "/p;k?x=1#f"])}
+            else: yield {"k": "path", "comps": [self._sane(self._s(rng, STR_ALPHA, 0, 3)) for _ in range(rng.randint(0, 4))],
+                         "path0": self._wide_path(rng, star=False) if rng.chance(0.6) else rng.pick(["/p", "/p?x=1", "/p;k?x=1#f"])}
 
     # ------------------------------------------------------------------ implementation
     @staticmethod
@@ -247,8 +311,26 @@ class Check(PropertyCheck):
                 return {"dec": [[hx(a), hx(b)] for a, b in d]}
             except ValueError:
                 return {"dec": "ValueError"}
+        if k == "wb":
+            pb = case["path0"].encode("utf8", "surrogateescape")
+            hd = [(b"Host", b"example.com"), (b"Cookie", b"a=1; b=\"x y\"")]
+            snap = lambda r: {"path": r.path, "url": r.url, "host": r.host, "port": r.port, "scheme": r.scheme, "auth": r.authority,
+                              "hosthdr": r.headers.get("Host")}
+            r = self._req(path=pb, headers=hd)
+            obs = {"base": snap(r), "q": [list(x) for x in r.query.fields], "pc": list(r.path_components), "after": {}}
+            for view in ("query", "path_components", "cookies", "urlencoded_form", "multipart_form"):
+                r = self._req(path=pb, headers=hd)
+                try:
+                    if view == "path_components": r.path_components = r.path_components
+                    else: setattr(r, view, getattr(r, view).fields)
+                    st = snap(r)
+                    st["q"] = [list(x) for x in r.query.fields]; st["pc"] = list(r.path_components)
+                    obs["after"][view] = st
+                except Exception as e:
+                    obs["after"][view] = {"exc": type(e).__name__}
+            return obs
         if k == "query":
-            r = self._req(path=case["path0"].encode())
+            r = self._req(path=case["path0"].encode("utf8", "surrogateescape"))
             r.query = [tuple(p) for p in case["pairs"]]
             back = [list(p) for p in r.query.fields]
             p1 = r.path
@@ -263,7 +345,7 @@ class Check(PropertyCheck):
             r.urlencoded_form = r.urlencoded_form.fields
             return {"back": back, "body_hex": hx(b1), "back2": [list(p) for p in r.urlencoded_form.fields], "ct2": r.headers.get("content-type")}
         if k == "path":
-            r = self._req(path=case["path0"].encode())
+            r = self._req(path=case["path0"].encode("utf8", "surrogateescape"))
             q0 = [list(p) for p in r.query.fields]
             r.path_components = list(case["comps"])
             back = list(r.path_components)
@@ -310,7 +392,30 @@ class Check(PropertyCheck):
                 rep2 = all(kk != b"" and delim not in kk and delim not in vv for kk, vv in got)
                 if rep2:
                     fails.append("multipart-writeback[%s]: view %r became %r" % (self._mp_tag(case, obs, got, bnd), got, obs["back2"]))
+        elif k == "wb":
+            p0, base = case["path0"], obs["base"]
+            # the views read the request target as it stands
+            if obs["q"] != ref_query(p0):
+                fails.append("read-query: %r has the query %r, the view shows %r" % (p0, ref_query(p0), obs["q"]))
+            if obs["pc"] != ref_components(p0):
+                fails.append("read-path: %r has the components %r, the view shows %r" % (p0, ref_components(p0), obs["pc"]))
+            # "writing a view's current value back leaves the message's meaning unchanged"
+            m0 = meaning(p0)
+            for view, st in obs["after"].items():
+                if "exc" in st:
+                    fails.append("wb-%s[other]: writing the view back on %r raised %s" % (view, p0, st["exc"])); continue
+                for f in ("host", "port", "scheme", "auth", "hosthdr"):
+                    if st[f] != base[f]:
+                        fails.append("wb-%s[other]: %s changed from %r to %r (target %r)" % (view, f, base[f], st[f], p0))
+                m1 = meaning(st["path"])
+                if m1 != m0:
+                    fails.append("wb-%s[%s]: target %r became %r" % (view, self._wb_tag(view, p0, m0, m1), p0, st["path"]))
+                elif st["q"] != obs["q"] or (st["pc"] != obs["pc"]):
+                    fails.append("wb-%s[other]: views of %r changed: query %r -> %r, components %r -> %r" % (view, p0, obs["q"], st["q"], obs["pc"], st["pc"]))
         elif k == "query":
+            m0, m1 = meaning(case["path0"]), meaning(obs["path"])
+            if m1[0] != m0[0] or m1[1] != m0[1] or m1[3] != m0[3]:
+                fails.append("query: assigning the query of %r changed the rest of the target: %r" % (case["path0"], obs["path"]))
             if obs["back"] != case["pairs"]:
                 fails.append("query: %r reads back as %r (path %r)" % (case["pairs"], obs["back"], obs["path"]))
             if obs["path2"] != obs["path"] or obs["back2"] != obs["back"]:
@@ -327,9 +432,21 @@ class Check(PropertyCheck):
                 fails.append("path: %r reads back as %r (path %r)" % (case["comps"], obs["back"], obs["path"]))
             if obs["path2"] != obs["path"]:
                 fails.append("path-writeback[%s]: path %r became %r" % ("empty-segment" if self._empty_segment(obs["path"]) else "other", obs["path"], obs["path2"]))
-            if obs["q1"] != obs["q0"]:
-                fails.append("path: query changed from %r to %r" % (obs["q0"], obs["q1"]))
+            if obs["q1"] != obs["q0"] or obs["q0"] != ref_query(case["path0"]):
+                fails.append("path: query changed from %r (target %r) to %r" % (obs["q0"], case["path0"], obs["q1"]))
+            m0, m1 = meaning(case["path0"]), meaning(obs["path"])
+            if m1[1:] != m0[1:]:
+                fails.append("path: assigning the components of %r changed query/fragment: %r" % (case["path0"], obs["path"]))
         return fails
+
+    @staticmethod
+    def _wb_tag(view, p0, m0, m1):
+        if p0 == "*": return "asterisk" if view in ("query", "path_components") else "other"
+        # F-C34d exactly: path_components written back, and the only change is that empty segments are gone
+        if view == "path_components" and m0[1:] == m1[1:] and "" in m0[0][1:] and m0[0] != ["", ""] \
+                and [x for x in m0[0] if x != ""] == [x for x in m1[0] if x != ""]:
+            return "empty-segment"
+        return "other"
 
     @staticmethod
     def _empty_segment(path):
@@ -364,7 +481,8 @@ class Check(PropertyCheck):
                             (any(c in vv for c in ";,") or vv.startswith('"') or (kk.lower() == "expires" and len(vv) <= 3)):
                         return "F-C34f"
             return None
-        if failure.startswith("path-writeback[empty-segment]"): return "F-C34d"
+        if failure.startswith("path-writeback[empty-segment]") or failure.startswith("wb-path_components[empty-segment]"): return "F-C34d"
+        if failure.startswith("wb-query[asterisk]") or failure.startswith("wb-path_components[asterisk]"): return "F-C34g"
         if failure.startswith("form[empty-pair-bare-style]"): return "F-C34e"
         if failure.startswith("multipart[boundary-escaped]") or failure.startswith("multipart-writeback[boundary-escaped]"): return "F-C34c"
         return None
@@ -432,6 +550,7 @@ class Check(PropertyCheck):
         return "|".join(self._pairs_field(c) for c in cookies)
 
     def classify(self, case, obs):
+        if case["k"] == "wb": return json.dumps(case, sort_keys=True)
         triv = {"cookie": "pairs", "cookiehdr": "hdrs", "setcookie": "cookies", "setcookiehdr": "hdrs", "multipart": "parts", "query": "pairs",
                 "form": "pairs", "path": "comps"}.get(case["k"])
         if triv and not case[triv]: return None
@@ -445,6 +564,11 @@ class Check(PropertyCheck):
             if any(nck._has_special(v) for _, v in case["pairs"]): out.append("cookie:quoted-value")
         if k == "setcookie":
             out.append("representable" if all(sc_representable(*c) for c in case["cookies"]) else "not-representable")
+        if k in ("wb", "query", "path"):
+            p0 = case["path0"]
+            for tag, cond in (("lead//", p0.startswith("//")), ("://", "://" in p0), (";params", ";" in p0.split("?")[0]), ("#", "#" in p0),
+                              ("??", p0.count("?") > 1), ("empty", p0 == ""), ("*", p0 == "*"), ("%2F", "%2F" in p0), ("non-ascii", any(ord(c) > 127 for c in p0))):
+                if cond: out.append("target:" + tag)
         if k == "multipart":
             out.append("mp:" + obs["set"])
             if case["ct"] is None or not case["ct"].startswith("multipart"): out.append("mp:random-boundary")
